@@ -2,6 +2,7 @@ import Uhppote.Model.Order
 import Uhppote.Spec.Order
 import Uhppote.Gen.Order
 import Uhppote.Gen.Source
+import Uhppote.Props.C13
 /-! # C16 — date and time comparisons form a strict total order consistent with the calendar
 All statements are for ALL integer field values (so certainly for years 0001..9999, months, days,
 hours 0..24, minutes 0..59). -/
@@ -88,6 +89,34 @@ theorem C16_segment_guard (s e : HM) : segmentRejected s e = false ↔ ¬ lex2 (
   unfold segmentRejected
   rw [← C16_hhmm_before_lex]
   simp
+
+/-- the civil fields a stored instant reports in a zone, as the comparison methods read them
+    (`Year()`, `Month()`, `Day()`) -/
+def fieldsIn (z : Uhppote.Model.Time.Zone) (u : Int) : YMD :=
+  let c := Uhppote.Model.Time.civilFromDays (Uhppote.Model.Time.dayOf (Uhppote.Model.Time.civil z u))
+  ⟨c.1, c.2.1, c.2.2⟩
+
+/-- **in every process zone**: the verdict on two dates that were *constructed* for the civil days
+    `m₁` and `m₂` (by any of the five sites, all of which go through `startOfDay`: `C13_sites`) is the
+    verdict on the calendar fields of those days - also when a DST change removes local midnight on
+    either day. With `C16_date_before_lex` this is "agrees with comparing (year, month, day)" for
+    dates as the library makes them, not only for field triples. (Hypotheses: those of
+    `C13_date_keeps_its_day`, for each of the two days.) -/
+theorem C16_order_in_every_zone (z : Uhppote.Model.Time.Zone)
+    (m₁ D₁ T₁ A₁ B₁ m₂ D₂ T₂ A₂ B₂ : Int)
+    (hm₁ : m₁ % 86400 = 0) (h₁ : Uhppote.Proofs.Zone.OneTransition z m₁ (2 * D₁ + 43200) T₁ A₁ B₁)
+    (hA₁ : -D₁ ≤ A₁ ∧ A₁ ≤ D₁) (hB₁ : -D₁ ≤ B₁ ∧ B₁ ≤ D₁) (hb₁ : ∀ v, -D₁ ≤ z.off v ∧ z.off v ≤ D₁) (hg₁ : B₁ - A₁ < 43200)
+    (hm₂ : m₂ % 86400 = 0) (h₂ : Uhppote.Proofs.Zone.OneTransition z m₂ (2 * D₂ + 43200) T₂ A₂ B₂)
+    (hA₂ : -D₂ ≤ A₂ ∧ A₂ ≤ D₂) (hB₂ : -D₂ ≤ B₂ ∧ B₂ ≤ D₂) (hb₂ : ∀ v, -D₂ ≤ z.off v ∧ z.off v ≤ D₂) (hg₂ : B₂ - A₂ < 43200) :
+    let p := fieldsIn z (Uhppote.Model.Time.startOfDay z m₁)
+    let q := fieldsIn z (Uhppote.Model.Time.startOfDay z m₂)
+    let p' : YMD := ⟨(Uhppote.Model.Time.civilFromDays (Uhppote.Model.Time.dayOf m₁)).1, (Uhppote.Model.Time.civilFromDays (Uhppote.Model.Time.dayOf m₁)).2.1, (Uhppote.Model.Time.civilFromDays (Uhppote.Model.Time.dayOf m₁)).2.2⟩
+    let q' : YMD := ⟨(Uhppote.Model.Time.civilFromDays (Uhppote.Model.Time.dayOf m₂)).1, (Uhppote.Model.Time.civilFromDays (Uhppote.Model.Time.dayOf m₂)).2.1, (Uhppote.Model.Time.civilFromDays (Uhppote.Model.Time.dayOf m₂)).2.2⟩
+    dateBefore p q = dateBefore p' q' ∧ dateEquals p q = dateEquals p' q' ∧ dateAfter p q = dateAfter p' q' := by
+  have e₁ := Uhppote.Props.C13.C13_date_keeps_its_day z m₁ D₁ T₁ A₁ B₁ hm₁ h₁ hA₁ hB₁ hb₁ hg₁
+  have e₂ := Uhppote.Props.C13.C13_date_keeps_its_day z m₂ D₂ T₂ A₂ B₂ hm₂ h₂ hA₂ hB₂ hb₂ hg₂
+  simp only [fieldsIn, e₁, e₂]
+  exact ⟨trivial, trivial, trivial⟩
 
 /-- the comparison functions all theorems above are about are, term for term, the ones translated from
     types/date.go, types/HHmm.go and types/datetime.go on this run (nested ifs with fall-through, the HHmm
